@@ -394,6 +394,11 @@ func (r *runner) run(s *structSpec, sc *scenario) (out outcome) {
 		f := s.Fields[i]
 		define := func(flagName string) {
 			d := val(i, srcFlagDefault)
+			if strings.HasSuffix(flagName, "b") {
+				// the second flag of a group: its default is the very value it will be set to when the scenario sets the flag
+				// (a flag explicitly given its own default is still an explicitly set flag)
+				d = val(i, srcFlag)
+			}
 			switch f.Kind {
 			case kString:
 				flagSet.String(flagName, d.(string), "")
@@ -425,7 +430,7 @@ func (r *runner) run(s *structSpec, sc *scenario) (out outcome) {
 		var err error
 		if gBind[i] == bindMulti {
 			define(flagName + "b")
-			err = config.BindFlagsToEnv(session, sc.Prefix, arg, flagSet.Lookup(flagName), flagSet.Lookup(flagName+"b"))
+			err = config.BindFlagsToEnv(session, sc.Prefix, arg, flagSet.Lookup(flagName+"b"), flagSet.Lookup(flagName))
 		} else {
 			err = config.BindFlagToEnv(session, sc.Prefix, arg, flagSet.Lookup(flagName))
 		}
@@ -436,7 +441,11 @@ func (r *runner) run(s *structSpec, sc *scenario) (out outcome) {
 		flagsBound++
 		flagLog[flagName] = fmt.Sprintf("bound to %q default=%v", arg, val(i, srcFlagDefault))
 		if present(i, srcFlag) {
-			if err := flagSet.Set(flagName, text(val(i, srcFlag))); err != nil {
+			setName := flagName
+			if gBind[i] == bindMulti {
+				setName = flagName + "b" // the group's first flag, set to what is also its default
+			}
+			if err := flagSet.Set(setName, text(val(i, srcFlag))); err != nil {
 				out.Panic = "ENGINE: flag set refused: " + err.Error()
 				return
 			}
